@@ -24,7 +24,7 @@ LEVEL = 'exploration'
 TECHNIQUE = ('stateful model-based testing (Hypothesis RuleBasedStateMachine: call / evict / clear histories) against a '
              'key-semantics reference model, plus exhaustive enumeration of signature pairs (itertools.product) in the thorough tier')
 RULE = ('histories of calls f(*args, **kwargs) with positional tuples of length 0-3 and 0-3 keyword names in every insertion '
-        'order over values {0, 1, 1.0, True, "a", "b", (1,2), (1.0,2), None, frozenset({1})}, evictions and clears, against '
+        'order over values {0, 1, 1.0, True, "a", "b", (1,2), (1.0,2), None, frozenset({1}), -1, -2 (equal hashes)}; the wrapped function returns None / falsy values for some argument sets, evictions and clears, against '
         'the default cache, a supplied dict, an initially empty (falsy) mapping, a bounded LRU mapping and lru.LRU; '
         'non-trivial: the history contains two calls whose keys are equal but spelled differently (keyword order, 1/1.0/True) '
         'or that differ only in one keyword value or in positional-vs-keyword placement; distinct by case hash')
@@ -37,7 +37,7 @@ ENUM_EXHAUSTIVE = {'thorough': 'all ordered pairs of call signatures with 0-2 po
                                '{x, y} over {1, 1.0, "a"} in both insertion orders, as history [s1, s2, s1] on the default cache '
                                'and on a supplied dict'}
 
-VALS = [0, 1, 1.0, True, 'a', 'b', (1, 2), (1.0, 2), None, frozenset({1})]
+VALS = [0, 1, 1.0, True, 'a', 'b', (1, 2), (1.0, 2), None, frozenset({1}), -1, -2]     # hash(-1) == hash(-2): unequal, same hash
 NAMES = ['x', 'y', 'z']
 CACHES = ['default', 'dict', 'empty-mapping', 'lru', 'lru.LRU']
 
@@ -80,6 +80,7 @@ class Interp:
         self.kind = cache_kind
         self.viol = []
         self.invocations = []          # (args, kwargs-items)
+        self.results = []              # what each invocation returned
         self.present = {}              # model key -> value
         self.assoc = {}                # implementation key (as stored in the mapping) -> model key
         self.spellings = {}            # model key -> set of spellings seen
@@ -105,7 +106,17 @@ class Interp:
 
         async def f(*args, **kwargs):
             self.invocations.append((args, tuple(kwargs.items())))
-            return ['computed', len(self.invocations) - 1, args, tuple(kwargs.items())]
+            # a result is a value like any other: None and falsy results must be cached too
+            if args and args[0] is None:
+                r = None
+            elif args and args[0] == 0 and args[0] is not False:
+                r = 0
+            elif kwargs.get('x') == 'b':
+                r = ''
+            else:
+                r = ['computed', len(self.invocations) - 1, args, tuple(kwargs.items())]
+            self.results.append(r)
+            return r
 
         self.f = f
         if self.store is None:
@@ -185,7 +196,7 @@ class Interp:
             if ninv != 1:
                 self.viol.append(V('not-computed', f'{desc}: key not stored (never computed or evicted) but the function was '
                                    f'invoked {ninv}x; returned {got!r}', 'miss-invocations-%d' % min(ninv, 2)))
-            elif got[1] != len(self.invocations) - 1 or self.invocations[-1] != (args, tuple(kw_items)):
+            elif got is not self.results[-1] or self.invocations[-1] != (args, tuple(kw_items)):
                 self.viol.append(V('wrong-value', f'{desc}: returned {got!r} which is not the value just computed',
                                    'wrong-value-on-miss'))
             if ninv >= 1:
@@ -201,7 +212,7 @@ class Interp:
             for k in new:
                 self.assoc.setdefault(_ident(k), mk)
             if not expect_hit and ninv >= 1:
-                if not any(v is got for v in self.store.values()):
+                if not any(v is got for v in self.store.values()) and len(after) == len(before_keys):
                     self.viol.append(V('store-not-used', f'{desc}: the computed value is not in the supplied mapping afterwards '
                                        f'(mapping holds {len(after)} entries)', 'store-not-used'))
             self._sync()
